@@ -1,6 +1,13 @@
 package main
 
-import "strings"
+import (
+	"strings"
+	"sync"
+)
+
+// connectiveMacros: names of spec functions whose define-fun body contains a connective, ite or binder (see
+// compileSpec); applications of these are never chosen as triggers.
+var connectiveMacros sync.Map
 
 // quantPatterns chooses E-matching triggers for a universally quantified range variable: the
 // innermost memory reads (select / str_at / spec applications) that mention the variable and contain
@@ -70,6 +77,11 @@ func quantPatterns(body, v string) []string {
 			return false
 		}
 		if innerPicked {
+			return true
+		}
+		if _, macro := connectiveMacros.Load(head); macro {
+			// a spec function defined (define-fun) as a formula with connectives: the solvers expand it, and
+			// a connective may not occur in a pattern
 			return true
 		}
 		if head == "select" || head == "str_at" || (head != "" && !isSMTBuiltin(head)) {
